@@ -209,6 +209,22 @@ class SqwModel(Model):
         elems = [e for r in rows for e in r.elems]
         return NdArr((sum(r.shape[0] for r in rows), *rows[0].shape[1:]), absio._common_dtype(rows), elems)
 
+    def x_numpy_ndim(self, interp, args, kwargs, node):
+        x = args[0]
+        if isinstance(x, NdArr):
+            return x.ndim
+        if isinstance(x, SVar) and shape_of(x) is not None:
+            return len(shape_of(x))
+        if isinstance(x, list | tuple):
+            d, y = 0, x
+            while isinstance(y, list | tuple):
+                d += 1
+                y = y[0] if y else None
+            return d
+        if isinstance(x, int | float):
+            return 0
+        return NotImplemented
+
     def x_numpy_prod(self, interp, args, kwargs, node):
         x = args[0]
         if isinstance(x, tuple | list) and all(isinstance(s, int | float) for s in x):
@@ -346,6 +362,9 @@ class SqwModel(Model):
             if 'concrete' in vals.members:
                 r.members['concrete'] = vals.members['concrete']
         if shape is not None:
+            if isinstance(dims, list | tuple) and len(dims) != len(shape):
+                raise RaiseSignal('ValueError', node, interp.where(node),
+                                  (f"The number of dimensions in 'dims' ({len(dims)}) does not match the number of dimensions in 'values' ({len(shape)}).",))
             set_shape(r, shape, list(dims) if isinstance(dims, list | tuple) else None)
         return r
 
